@@ -94,6 +94,7 @@ def check(run, project):
     r3(run, project, roles)
     r4(run, roles)
     r5(run, project)
+    r6(run, project)
     run.floor("R1", 20, "region obligations")
     run.floor("R4", 20, "threaded call sites")
 
@@ -412,3 +413,51 @@ def r5(run, project):
     obs = [s for s in walk_no_nested(ad) if isinstance(s, ast.Assign) and norm(s.targets[0]) == "self.is_obsolete"]
     run.ob("R5", len(obs) == 1 and norm(obs[0].value) == "True", "closing retires the region", "assert_done does not retire the region",
            module=cm, node=ad, func="SizeConstraint.assert_done", construct="is_obsolete on close")
+
+
+def r6(run, project):
+    """zero is a legitimate count: the limit / the bytes counted so far / the bytes remaining are never
+    tested by truthiness (0 and None must not be conflated: a region that is exactly full has 0 bytes
+    left and still has a limit)."""
+    cm = project.module(CONSTRAINTS)
+    cls = cm.classes().get("SizeConstraint")
+    if cls is None:
+        raise AnalysisError("C03: class SizeConstraint not found")
+    base = {"self.size_max", "self.size_already"}
+    # properties / locals derived from them
+    derived_attrs = set()
+    for m in cls.body:
+        if isinstance(m, ast.FunctionDef) and any(norm(d) == "property" for d in m.decorator_list):
+            if any(norm(x) in base for r in ast.walk(m) if isinstance(r, ast.Return) and r.value is not None for x in ast.walk(r.value)):
+                derived_attrs.add(f"self.{m.name}")
+    n = 0
+    for m in cls.body:
+        if not isinstance(m, ast.FunctionDef):
+            continue
+        counts = set(base) | derived_attrs
+        changed = True
+        while changed:
+            changed = False
+            for a in walk_no_nested(m):
+                if isinstance(a, ast.Assign) and len(a.targets) == 1 and isinstance(a.targets[0], ast.Name) and a.targets[0].id not in counts:
+                    if isinstance(a.value, (ast.Attribute, ast.Name, ast.BinOp)) and any(norm(x) in counts for x in ast.walk(a.value)):
+                        counts.add(a.targets[0].id)
+                        changed = True
+        for node in walk_no_nested(m):
+            operands = []
+            if isinstance(node, (ast.If, ast.While, ast.IfExp, ast.Assert)):
+                operands = [node.test]
+            elif isinstance(node, ast.BoolOp):
+                operands = list(node.values)
+            elif isinstance(node, ast.UnaryOp) and isinstance(node.op, ast.Not):
+                operands = [node.operand]
+            for o in operands:
+                if isinstance(o, (ast.Name, ast.Attribute)):
+                    n += 1
+                    bad = norm(o) in counts
+                    run.ob("R6", not bad, f"SizeConstraint.{m.name} L{o.lineno}: `{norm(o)}` in boolean context is not a byte count",
+                           f"`{norm(o)}` is a byte count / limit (None = not armed, 0 = region exactly full) and is tested by truthiness: a "
+                           "region with 0 bytes left is treated like an unarmed one, so a field starting exactly at the region's end "
+                           "is consumed instead of raising SizeConstraintExceededError", module=cm, node=node,
+                           func=f"SizeConstraint.{m.name}", construct=f"truthiness of {norm(o)}")
+    run.ob("R6", True, f"SizeConstraint: {n} boolean-context operands examined")
